@@ -121,15 +121,15 @@ impl<'a> MtHelpers<'a> {
         let custom_msg = custom.msg_or_default();
         let mt_app: Type = parse_quote! {
             #sylvia ::cw_multi_test::App<
-                BankT,
-                ApiT,
-                StorageT,
-                CustomT,
-                WasmT,
-                StakingT,
-                DistrT,
-                IbcT,
-                GovT,
+                SvBankT,
+                SvApiT,
+                SvStorageT,
+                SvCustomT,
+                SvWasmT,
+                SvStakingT,
+                SvDistrT,
+                SvIbcT,
+                SvGovT,
             >
         };
         let api = quote! { < #contract_name as #sylvia ::types::ContractApi> };
@@ -181,7 +181,7 @@ impl<'a> MtHelpers<'a> {
                 use super::*;
                 use #sylvia ::cw_multi_test::Executor;
 
-                pub trait #trait_name <'app, #(#generic_params,)* MtApp >
+                pub trait #trait_name <'app, #(#generic_params,)* SvMtAppT >
                     #where_clause
                 {
                     #( #exec_methods_declarations )*
@@ -190,21 +190,21 @@ impl<'a> MtHelpers<'a> {
                     #( #sudo_methods_declarations )*
                 }
 
-                impl<'app, #(#generic_params,)* BankT, ApiT, StorageT, CustomT, WasmT, StakingT, DistrT, IbcT, GovT >
+                impl<'app, #(#generic_params,)* SvBankT, SvApiT, SvStorageT, SvCustomT, SvWasmT, SvStakingT, SvDistrT, SvIbcT, SvGovT >
                     #trait_name <'app, #(#generic_params,)* #mt_app >
                         for #sylvia ::multitest::Proxy <'app, #mt_app, #contract_name >
                     where
-                        CustomT: #sylvia ::cw_multi_test::Module,
-                        CustomT::ExecT: #sylvia::types::CustomMsg + 'static,
-                        CustomT::QueryT: #sylvia ::types::CustomQuery + 'static,
-                        WasmT: #sylvia ::cw_multi_test::Wasm<CustomT::ExecT, CustomT::QueryT>,
-                        BankT: #sylvia ::cw_multi_test::Bank,
-                        ApiT: #sylvia ::cw_std::Api,
-                        StorageT: #sylvia ::cw_std::Storage,
-                        StakingT: #sylvia ::cw_multi_test::Staking,
-                        DistrT: #sylvia ::cw_multi_test::Distribution,
-                        IbcT: #sylvia ::cw_multi_test::Ibc,
-                        GovT: #sylvia ::cw_multi_test::Gov,
+                        SvCustomT: #sylvia ::cw_multi_test::Module,
+                        SvCustomT::ExecT: #sylvia::types::CustomMsg + 'static,
+                        SvCustomT::QueryT: #sylvia ::types::CustomQuery + 'static,
+                        SvWasmT: #sylvia ::cw_multi_test::Wasm<SvCustomT::ExecT, SvCustomT::QueryT>,
+                        SvBankT: #sylvia ::cw_multi_test::Bank,
+                        SvApiT: #sylvia ::cw_std::Api,
+                        SvStorageT: #sylvia ::cw_std::Storage,
+                        SvStakingT: #sylvia ::cw_multi_test::Staking,
+                        SvDistrT: #sylvia ::cw_multi_test::Distribution,
+                        SvIbcT: #sylvia ::cw_multi_test::Ibc,
+                        SvGovT: #sylvia ::cw_multi_test::Gov,
                         #mt_app : Executor< #custom_msg >,
                         #where_predicates
                 {
@@ -276,15 +276,15 @@ impl<'a> MtHelpers<'a> {
 
         let mt_app = quote! {
             #sylvia ::cw_multi_test::App<
-                BankT,
-                ApiT,
-                StorageT,
-                CustomT,
+                SvBankT,
+                SvApiT,
+                SvStorageT,
+                SvCustomT,
                 #sylvia ::cw_multi_test::WasmKeeper< #custom_msg , #custom_query >,
-                StakingT,
-                DistrT,
-                IbcT,
-                GovT,
+                SvStakingT,
+                SvDistrT,
+                SvIbcT,
+                SvGovT,
             >
         };
 
@@ -299,23 +299,23 @@ impl<'a> MtHelpers<'a> {
         };
 
         quote! {
-            pub struct CodeId<'app, Contract, MtApp> {
+            pub struct CodeId<'app, Contract, SvMtAppT> {
                 code_id: u64,
-                app: &'app #sylvia ::multitest::App<MtApp>,
+                app: &'app #sylvia ::multitest::App<SvMtAppT>,
                 _phantom: std::marker::PhantomData<Contract>,
 
             }
 
-            impl<'app, #(#generic_params,)* BankT, ApiT, StorageT, CustomT, StakingT, DistrT, IbcT, GovT > CodeId<'app, #contract, #mt_app >
+            impl<'app, #(#generic_params,)* SvBankT, SvApiT, SvStorageT, SvCustomT, SvStakingT, SvDistrT, SvIbcT, SvGovT > CodeId<'app, #contract, #mt_app >
                 where
-                    BankT: #sylvia ::cw_multi_test::Bank,
-                    ApiT: #sylvia ::cw_std::Api,
-                    StorageT: #sylvia ::cw_std::Storage,
-                    CustomT: #sylvia ::cw_multi_test::Module<ExecT = #custom_msg, QueryT = #custom_query >,
-                    StakingT: #sylvia ::cw_multi_test::Staking,
-                    DistrT: #sylvia ::cw_multi_test::Distribution,
-                    IbcT: #sylvia ::cw_multi_test::Ibc,
-                    GovT: #sylvia ::cw_multi_test::Gov,
+                    SvBankT: #sylvia ::cw_multi_test::Bank,
+                    SvApiT: #sylvia ::cw_std::Api,
+                    SvStorageT: #sylvia ::cw_std::Storage,
+                    SvCustomT: #sylvia ::cw_multi_test::Module<ExecT = #custom_msg, QueryT = #custom_query >,
+                    SvStakingT: #sylvia ::cw_multi_test::Staking,
+                    SvDistrT: #sylvia ::cw_multi_test::Distribution,
+                    SvIbcT: #sylvia ::cw_multi_test::Ibc,
+                    SvGovT: #sylvia ::cw_multi_test::Gov,
                     #where_predicates
             {
                 pub fn store_code(app: &'app #sylvia ::multitest::App< #mt_app >) -> Self {
@@ -371,8 +371,8 @@ impl<'a> MtHelpers<'a> {
         let instantiate2_body = self.emit_instantiate2_body();
 
         quote! {
-            pub struct InstantiateProxy<'proxy, 'app, #(#generic_params,)* MtApp> {
-                code_id: &'proxy CodeId <'app, #contract, MtApp>,
+            pub struct InstantiateProxy<'proxy, 'app, #(#generic_params,)* SvMtAppT> {
+                code_id: &'proxy CodeId <'app, #contract, SvMtAppT>,
                 funds: &'proxy [#sylvia ::cw_std::Coin],
                 label: &'proxy str,
                 admin: Option<String>,
@@ -380,9 +380,9 @@ impl<'a> MtHelpers<'a> {
                 msg: InstantiateMsg #bracketed_used_generics,
             }
 
-            impl<'proxy, 'app, #(#generic_params,)* MtApp> InstantiateProxy<'proxy, 'app, #(#generic_params,)* MtApp>
+            impl<'proxy, 'app, #(#generic_params,)* SvMtAppT> InstantiateProxy<'proxy, 'app, #(#generic_params,)* SvMtAppT>
                 where
-                    MtApp: Executor< #custom_msg >,
+                    SvMtAppT: Executor< #custom_msg >,
                     #where_predicates
             {
                 pub fn with_funds(self, funds: &'proxy [#sylvia ::cw_std::Coin]) -> Self {
@@ -404,7 +404,7 @@ impl<'a> MtHelpers<'a> {
                 }
 
                 #[track_caller]
-                pub fn call(self, sender: &#sylvia ::cw_std::Addr ) -> Result<#sylvia ::multitest::Proxy<'app, MtApp, #contract_name >, #error_type> {
+                pub fn call(self, sender: &#sylvia ::cw_std::Addr ) -> Result<#sylvia ::multitest::Proxy<'app, SvMtAppT, #contract_name >, #error_type> {
                     let Self {code_id, funds, label, admin, salt, msg} = self;
 
                     match salt {
@@ -735,7 +735,7 @@ impl EmitMethods for MsgVariant<'_> {
 
         match self.msg_attr().msg_type() {
             MsgType::Exec => quote! {
-                fn #name (&self, #(#params,)* ) -> #sylvia ::multitest::ExecProxy::< #error_type, #api:: #type_name, MtApp, #custom_msg>;
+                fn #name (&self, #(#params,)* ) -> #sylvia ::multitest::ExecProxy::< #error_type, #api:: #type_name, SvMtAppT, #custom_msg>;
             },
             MsgType::Query => quote! {
                 fn #name (&self, #(#params,)* ) -> Result<#return_type, #error_type>;
@@ -745,7 +745,7 @@ impl EmitMethods for MsgVariant<'_> {
             },
             MsgType::Migrate => quote! {
                 #[track_caller]
-                fn #name (&self, #(#params,)* ) -> #sylvia ::multitest::MigrateProxy::< #error_type, #api :: #type_name, MtApp, #custom_msg>;
+                fn #name (&self, #(#params,)* ) -> #sylvia ::multitest::MigrateProxy::< #error_type, #api :: #type_name, SvMtAppT, #custom_msg>;
             },
             _ => quote! {},
         }
